@@ -373,6 +373,43 @@ v_tup2 = z3.Function('v_tup2', Val, Val, Val)
 v_truthy = z3.Function('v_truthy', Val, smt.B)
 val_int = z3.Function('val_int', Val, smt.I)
 _STR_IDS = {}
+v_kind = z3.Function('v_kind', Val, smt.I)     # 0 none, 1 bool, 2 int, 3 seq, 4 str, 5 obj, 6 tuple, other: unknown
+
+
+def val_axioms(formulas=()):
+    """Ground instances (one per embedding term occurring in `formulas`) of the facts
+    about the embedding of concrete Python values into the opaque sort: None is
+    falsy and differs from every bool/int/bytes/str/object/tuple, embeddings are
+    injective, truthiness of bools / ints / objects / tuples."""
+    A = [v_kind(v_none) == 0, z3.Not(v_truthy(v_none))]
+    seen = set()
+
+    def walk(e):
+        k = e.get_id()
+        if k in seen:
+            return
+        seen.add(k)
+        if z3.is_quantifier(e):
+            return
+        if z3.is_app(e):
+            nm = e.decl().name()
+            if nm == 'v_bool':
+                A.append(z3.And(v_kind(e) == 1, v_truthy(e) == e.arg(0)))
+            elif nm == 'v_int':
+                A.append(z3.And(v_kind(e) == 2, val_int(e) == e.arg(0), v_truthy(e) == (e.arg(0) != 0)))
+            elif nm == 'v_seq':
+                A.append(z3.And(v_kind(e) == 3, v_truthy(e) == (slen(e.arg(0)) > 0)))
+            elif nm == 'v_str':
+                A.append(z3.And(v_kind(e) == 4, val_int(e) == e.arg(0)))
+            elif nm == 'v_obj':
+                A.append(z3.And(v_kind(e) == 5, val_int(e) == e.arg(0), v_truthy(e)))
+            elif nm == 'v_tup2':
+                A.append(z3.And(v_kind(e) == 6, v_truthy(e)))
+            for c in e.children():
+                walk(c)
+    for f in formulas:
+        walk(f)
+    return A
 
 
 def str_id(s):
